@@ -1,0 +1,10 @@
+//go:build verif
+
+package witness
+
+// Export hooks for the out-of-tree verification harness; compiled only with
+// -tags verif.
+
+func VerifSetBeforeAddEntriesCommit(f func()) { testingOnlyBeforeAddEntriesCommit = f }
+
+func VerifSetBeforeAddEntriesPackage(f func(start int64)) { testingOnlyBeforeAddEntriesPackage = f }
